@@ -170,7 +170,8 @@ def r15_2_stale(ctx, prog):
             else:
                 e = C.expr_of(pa, g[0][2])
                 exp = (("sub", "top:instant", "top:client.rtt.0.3.0"), ("Duration::from_secs", 600))
-                lhs_ok = isinstance(e[0], tuple) and e[0][0] == "Instant::sub" and e[0][1] == "top:instant" and "client.rtt.0.last_request" in repr(e[0][2])
+                lhs_ok = isinstance(e[0], tuple) and e[0][0] in ("Instant::sub", "Instant::duration_since", "Instant::saturating_duration_since") \
+                    and e[0][1] == "top:instant" and "client.rtt.0.last_request" in repr(e[0][2])
                 rhs_ok = e[1] == ("Duration::from_secs", 600)
                 if not (lhs_ok and rhs_ok):
                     ok, why = False, "staleness test is %s > %s" % (show(e[0]), show(e[1]))
